@@ -88,6 +88,8 @@ type Case struct {
 	// and (entries) the (day, type) pairs the call announces
 	Sizes  []int `json:"sizes"`
 	Series []int `json:"series,omitempty"`
+	// the insert service of this name (spans | attrs | prof | spl | ts) answers every request with an error
+	FailSvc string `json:"fail_svc,omitempty"`
 	Obs   *Obs  `json:"obs,omitempty"`
 }
 
@@ -97,6 +99,7 @@ type recorder struct {
 	name string
 	mtx  sync.Mutex
 	got  []Batch
+	fail bool
 }
 
 func (r *recorder) Run()                            {}
@@ -134,7 +137,11 @@ func (r *recorder) Request(req helpers.SizeGetter, insertMode int) *promise.Prom
 	}
 	r.mtx.Lock()
 	r.got = append(r.got, b)
+	fail := r.fail
 	r.mtx.Unlock()
+	if fail {
+		return promise.Fulfilled[uint32](fmt.Errorf("scripted insert failure"), 0)
+	}
 	return promise.Fulfilled[uint32](nil, 0)
 }
 
@@ -463,6 +470,10 @@ func genCase(r *rand.Rand, id int) Case {
 			c.Class += "/" + k
 		}
 	}
+	if r.Intn(6) == 0 {
+		c.FailSvc = map[string][]string{"spans": {"spans", "attrs"}, "prof": {"prof"}, "logs": {"spl", "ts"}}[c.Kind][r.Intn(2)%len(map[string][]string{"spans": {"spans", "attrs"}, "prof": {"prof"}, "logs": {"spl", "ts"}}[c.Kind])]
+		c.Class += "/insert-fails-" + c.FailSvc
+	}
 	fillSizes(&c)
 	return c
 }
@@ -537,6 +548,11 @@ func main() {
 		emit(map[string]int{"begin": c.ID})
 		current = c.Events
 		currentID = c.ID
+		for _, r := range []*recorder{rg.spans, rg.tags, rg.prof, rg.spl, rg.ts} {
+			r.mtx.Lock()
+			r.fail = c.FailSvc != "" && r.name == c.FailSvc
+			r.mtx.Unlock()
+		}
 		h := spans
 		if c.Kind == "prof" {
 			h = prof
